@@ -142,12 +142,21 @@ def run_case(case):
     if r0["cls"] == "unspecified":
         return ("unspecified", None)
     if r0["cls"] == "ok":
-        # scenarios whose ideal value (or the factor of the result units) leaves the range of a double are not judged
+        # scenarios in which the ideal value, the factor of the result units or an operand's factor / base value leaves
+        # 1e-150..1e150 are not judged (squares and products of such numbers leave the normal range of a double)
+        def _facof(ex):
+            f = 1.0
+            for x in ex:
+                f *= T.tab_factor(x["u"]) ** (x["e"][0] / x["e"][1])
+            return f
         try:
             with np.errstate(all="ignore"):
                 probe = [T.ev(r["base"]) for r in recs] + [T.ev(r["val"]) for r in recs] + [T.ev(r["base"], mag=True) for r in recs]
                 probe += [T.ev(t) for r in recs for t in r.get("seqb", []) + r.get("seqv", [])]
-            if any((not np.isfinite(x)) or (x != 0 and not (1e-290 < abs(x) < 1e290)) for x in probe):
+                probe += [_facof(r0["ex"]), _facof(r0["a"]["ex"]), _facof(r0["b"]["ex"])]
+                probe += [_facof(r["a"]["ex"]) * r["a"]["v"][0] / r["a"]["v"][1] for r in recs]
+                probe += [_facof(r["b"]["ex"]) * r["b"]["v"][0] / r["b"]["v"][1] for r in recs]
+            if any((not np.isfinite(x)) or (x != 0 and not (1e-150 < abs(x) < 1e150)) for x in probe):
                 return ("unspecified", None)
         except (ZeroDivisionError, OverflowError):
             return ("unspecified", None)
@@ -463,7 +472,7 @@ def run(replay=None):
         "symbols and the two-letter prefix 'da' are outside the concretisation",
         "tolerance rel 1e-9 of the magnitude of the computation (differences are judged against |a|+|b|)",
         "division by zero, 0**n (n<=0) and fractional powers of negative numbers are unspecified and not judged",
-        "scenarios whose ideal base value, value or unit factor is outside 1e-290..1e290 (stacked extreme prefixes) are not judged",
+        "scenarios whose ideal base value, value or unit factor or an operand's factor / base value is outside 1e-150..1e150 (stacked extreme prefixes) are not judged",
     ]
     C.cleanup(PID)
     return V.finish()
